@@ -96,7 +96,7 @@ func c14Uniform(s *c14Stream, max *big.Int) (*big.Int, bool) {
 // c14Prefix is a parsed CIDR as the property sees it.
 type c14Prefix struct {
 	OK     bool         // parsable
-	Mapped bool         // IPv4-mapped IPv6 text form (family ambiguous; outside the generated domain)
+	Mapped bool         // network address (after masking) is IPv4-mapped, i.e. ::ffff:a.b.c.d/96..128: family ambiguous
 	P      netip.Prefix // masked
 	V4     bool
 }
@@ -126,10 +126,14 @@ func c14ParseCIDR(s string) c14Prefix {
 	if bits > a.BitLen() {
 		return c14Prefix{}
 	}
-	if a.Is4In6() {
-		return c14Prefix{OK: true, Mapped: true, P: netip.PrefixFrom(a, bits).Masked()}
+	m := netip.PrefixFrom(a, bits).Masked()
+	// ::ffff:a.b.c.d/n with n < 96 masks the ::ffff marker away and is an ordinary IPv6 prefix (it
+	// merely covers the mapped range); with n >= 96 the network itself is IPv4-mapped and can be read
+	// as the IPv4 network a.b.c.d/(n-96) or as a 128-bit IPv6 network.
+	if m.Addr().Is4In6() {
+		return c14Prefix{OK: true, Mapped: true, P: m}
 	}
-	return c14Prefix{OK: true, P: netip.PrefixFrom(a, bits).Masked(), V4: a.Is4()}
+	return c14Prefix{OK: true, P: m, V4: a.Is4()}
 }
 
 // c14Size is the number of addresses of a prefix.
@@ -311,13 +315,20 @@ func c14RefSelect(groups []c14RefGroup, groupsNil bool, seed []byte, weighted bo
 
 // Containment -------------------------------------------------------------------------------------
 
-// c14Contain answers the property's own question for a returned address: is it inside a configured
-// subnet of the requested family of that generation, and does any such subnet allow port
-// randomisation. IPv4-mapped prefixes of length >= 96 are read as the IPv4 prefix they denote.
-func c14Contain(groups []c14RefGroup, ip []byte, fam string) (inside, randAllowed bool) {
+// c14Contain answers the property's own question for a returned address under one reading of the
+// address family: reading v4 takes a 4-byte address and the configured IPv4 subnets, reading v6 a
+// 16-byte address and the configured IPv6 subnets. An IPv4-mapped network (::ffff:a.b.c.d/96..128)
+// is ambiguous and therefore a member of both readings: as a.b.c.d/(n-96) under v4, as the 128-bit
+// prefix it is written as under v6. Returns whether some such subnet of the generation contains the
+// address, whether a containing subnet allows port randomisation, and whether a containing subnet
+// was a mapped one.
+func c14Contain(groups []c14RefGroup, ip []byte, reading string) (inside, randAllowed, viaMapped bool) {
+	if (reading == c14FamV4 && len(ip) != 4) || (reading == c14FamV6 && len(ip) != 16) {
+		return false, false, false
+	}
 	a, ok := netip.AddrFromSlice(ip)
 	if !ok {
-		return false, false
+		return false, false, false
 	}
 	for _, g := range groups {
 		for _, s := range g.Subnets {
@@ -326,15 +337,10 @@ func c14Contain(groups []c14RefGroup, ip []byte, fam string) (inside, randAllowe
 				continue
 			}
 			pp := p.P
-			v4 := p.V4
-			if p.Mapped {
-				if pp.Bits() < 96 {
-					continue
-				}
+			switch {
+			case reading == c14FamV4 && p.Mapped:
 				pp = netip.PrefixFrom(pp.Addr().Unmap(), pp.Bits()-96)
-				v4 = true
-			}
-			if (fam == c14FamV4 && !v4) || (fam == c14FamV6 && v4) {
+			case reading == c14FamV4 && !p.V4, reading == c14FamV6 && p.V4:
 				continue
 			}
 			if pp.Contains(a) {
@@ -342,10 +348,54 @@ func c14Contain(groups []c14RefGroup, ip []byte, fam string) (inside, randAllowe
 				if g.Rand {
 					randAllowed = true
 				}
+				if p.Mapped {
+					viaMapped = true
+				}
 			}
 		}
 	}
-	return inside, randAllowed
+	return inside, randAllowed, viaMapped
+}
+
+// c14Readings lists the well-formed readings of a returned byte string: 4 bytes are an IPv4
+// address; 16 bytes are an IPv6 address and, when IPv4-mapped, also Go's long form of an IPv4 address.
+type c14Reading struct {
+	ip  []byte
+	fam string
+}
+
+func c14Readings(ip []byte) []c14Reading {
+	switch len(ip) {
+	case 4:
+		return []c14Reading{{ip, c14FamV4}}
+	case 16:
+		out := []c14Reading{{ip, c14FamV6}}
+		if a, ok := netip.AddrFromSlice(ip); ok && a.Is4In6() {
+			u := a.Unmap().As4()
+			out = append([]c14Reading{{u[:], c14FamV4}}, out...)
+		}
+		return out
+	}
+	return nil
+}
+
+// c14SameAddr: equal bytes, or the 16-byte IPv4-mapped form of the reference's 4-byte address.
+func c14SameAddr(ref, got []byte) bool {
+	if string(ref) == string(got) {
+		return true
+	}
+	if len(ref) == 4 && len(got) == 16 {
+		if a, ok := netip.AddrFromSlice(got); ok && a.Is4In6() {
+			u := a.Unmap().As4()
+			return string(u[:]) == string(ref)
+		}
+	}
+	return false
+}
+
+func c14MappedCIDR(s string) bool {
+	p := c14ParseCIDR(s)
+	return p.OK && p.Mapped
 }
 
 // c14LeadingZero reports whether a parsed network's address starts with a zero byte.
